@@ -8,6 +8,7 @@ import (
 	"io"
 	"os"
 	"path"
+	"sync"
 	"time"
 
 	"github.com/gogo/protobuf/proto"
@@ -56,6 +57,33 @@ type Log interface {
 type store struct {
 	datadir string
 	log     commitlog.CommitLog
+	// mu serialises writers (Append, truncation) with readers of the log. The commit log's
+	// cursor decides "end of log or next segment?" by comparing the segment's and the log's
+	// write offsets without any synchronisation; an append completing in that window made it
+	// restart the active segment from its first entry, so old offsets were handed to the
+	// consumer again (under wrong offsets, too).
+	mu sync.RWMutex
+}
+
+// lockedCursor is a log reader that cannot interleave with an append.
+type lockedCursor struct {
+	mu *sync.RWMutex
+	c  io.ReadSeeker
+}
+
+func (l *lockedCursor) Read(p []byte) (int, error) {
+	l.mu.RLock()
+	defer l.mu.RUnlock()
+	return l.c.Read(p)
+}
+func (l *lockedCursor) Seek(offset int64, whence int) (int64, error) {
+	l.mu.RLock()
+	defer l.mu.RUnlock()
+	return l.c.Seek(offset, whence)
+}
+
+func (s *store) reader() io.ReadSeeker {
+	return &lockedCursor{mu: &s.mu, c: s.log.Reader()}
 }
 
 func New(datadir string) (Log, error) {
@@ -68,7 +96,7 @@ func New(datadir string) (Log, error) {
 
 func (s *store) Close() error { return s.log.Close() }
 func (s *store) Get(offset uint64) (*packet.Publish, error) {
-	reader := s.log.Reader()
+	reader := s.reader()
 	reader.Seek(int64(offset), io.SeekStart)
 	entry, err := commitlog.NewDecoder(reader).Decode()
 	if err != nil {
@@ -78,12 +106,15 @@ func (s *store) Get(offset uint64) (*packet.Publish, error) {
 }
 
 func (s *store) Append(publish *packet.Publish) error {
-	_, err := s.log.WriteEntry(uint64(time.Now().UnixNano()), mustEncode(publish))
+	buf := mustEncode(publish)
+	s.mu.Lock()
+	defer s.mu.Unlock()
+	_, err := s.log.WriteEntry(uint64(time.Now().UnixNano()), buf)
 	return err
 }
 
 func (s *store) Stream(ctx context.Context, consumer stream.Consumer, f func(*packet.Publish) error) error {
-	reader := s.log.Reader()
+	reader := s.reader()
 	reader.Seek(0, io.SeekEnd)
 	return consumer.Consume(ctx, reader, func(c context.Context, b stream.Batch) error {
 		for _, record := range b.Records {
@@ -98,7 +129,9 @@ func (s *store) Stream(ctx context.Context, consumer stream.Consumer, f func(*pa
 
 func (s *store) maybeTruncate(currentOffset uint64) {
 	if currentOffset > 1500 && currentOffset%1000 == 0 {
+		s.mu.Lock()
 		s.log.TruncateBefore(currentOffset - 300)
+		s.mu.Unlock()
 	}
 }
 func (s *store) Consume(ctx context.Context, consumerName string, f func(uint64, *packet.Publish) error) error {
@@ -145,7 +178,7 @@ func (s *store) Consume(ctx context.Context, consumerName string, f func(uint64,
 	consumer := stream.NewConsumer(
 		stream.WithEOFBehaviour(stream.EOFBehaviourPoll),
 		stream.FromOffset(int64(offset)))
-	cursor := s.log.Reader()
+	cursor := s.reader()
 	s.maybeTruncate(offset)
 	return consumer.Consume(ctx, cursor, func(c context.Context, b stream.Batch) error {
 		for idx, record := range b.Records {
